@@ -49,6 +49,14 @@ impl Rng {
     pub fn fork(&mut self) -> Rng {
         Rng(self.next())
     }
+    /// independent stream for scenario `k` (does not advance `self`): lets shards of one run
+    /// generate exactly the scenarios a single process would
+    pub fn sub(&self, k: u64) -> Rng {
+        let mut r = Rng(self.0 ^ k.wrapping_mul(0xd6e8_feb8_6659_fd93).wrapping_add(0x1234_5678_9abc_def1));
+        r.next();
+        r.next();
+        r
+    }
     pub fn seed32(&mut self) -> [u8; 32] {
         let mut s = [0u8; 32];
         for c in s.chunks_mut(8) {
@@ -202,6 +210,9 @@ pub struct Emitter {
     pub samples: Vec<Value>,
     pub notes: Vec<String>,
     pub rule: String,
+    /// this process handles the scenarios `k` with `k % shard_n == shard_i` (env VERIF_SHARD = "i/n")
+    pub shard_i: u64,
+    pub shard_n: u64,
 }
 
 fn fnv(s: &str) -> u64 {
@@ -228,7 +239,13 @@ impl Emitter {
             samples: vec![],
             notes: vec![],
             rule: String::new(),
+            shard_i: std::env::var("VERIF_SHARD").ok().and_then(|s| s.split('/').next().and_then(|x| x.parse().ok())).unwrap_or(0),
+            shard_n: std::env::var("VERIF_SHARD").ok().and_then(|s| s.split('/').nth(1).and_then(|x| x.parse().ok())).unwrap_or(1).max(1),
         }
+    }
+    /// is scenario `k` handled by this shard?
+    pub fn mine(&self, k: usize) -> bool {
+        (k as u64) % self.shard_n == self.shard_i
     }
     pub fn thorough(&self) -> bool {
         self.tier == "thorough"
